@@ -27,7 +27,7 @@ TECHNIQUE = ("runtime monitoring: application-protocol / Deferred / wire recorde
              "_TorSocksProtocol + reference SOCKS5 reply encoder as oracle, evaluated after every delivered chunk; all 256 reply "
              "codes x 4 address types, exhaustive 1-/2-cut segmentations, disconnect at every chunk boundary; icontract "
              "postcondition relaying => empty buffer")
-LEVEL_TEXT = ("Held on the executions observed: ~54k (quick) to ~1.4M (thorough) scripted server streams, the "
+LEVEL_TEXT = ("Held on the executions observed: ~56k (quick) to ~1.45M (thorough) scripted server streams, the "
               "oracle evaluated after every chunk. Reply codes 0..255 x address types and domain lengths 1..255 are enumerated "
               "completely, as are all 1- and 2-cut segmentations (and every boundary disconnect) of the short streams "
               "(thorough: for every one of the 256 codes x 4 address types); "
@@ -51,6 +51,7 @@ ASSUMPTIONS = [
     "the application protocol's connectionLost notification and the decoded bound address/port handed to it are not judged",
     "TLS wrapping (tls=True) is not driven; RESOLVE/RESOLVE_PTR replies are followed by no further bytes",
     "domain-type replies may carry octets >= 0x80 in the name (the field is length-prefixed bytes): a CONNECT must still succeed and relay; a resolve must complete exactly once with the name as bytes or as text that encodes back to it (ascii / utf-8 / latin-1 / surrogateescape); a text with replacement characters for the non-ASCII octets is accepted and counted",
+    "the relaying layer is the application protocol's transport: like a Twisted transport it must hand over immutable bytes it never touches again (a double keeps the objects and re-reads them later) and must call the protocol's CURRENT dataReceived (doubles re-point their dataReceived at connectionMade / after the first delivery, as HTTPChannel and conch do); the type handed over is recorded, not judged",
     "delivery is never re-entrant: dataReceived/feed_data is not called from inside transport.write or a send_data drain callback (the ITransport contract: writes are buffered; no Twisted transport re-enters)",
 ]
 TRUSTED_BASE = ["vf.refs.socks5 (reply encoder, self-tested against an independent decoder; IPv6 text parser cross-checked with ipaddress)",
@@ -76,7 +77,7 @@ FLOORS = {
     "quick": {"evaluations": 6000, "chunks_judged": 25000, "outcomes_compared": 15000, "app_bytes_compared": 20000,
               "app_writes_compared": 5000, "disconnects_injected": 1500, "contract_evaluations": 24000,
               "error_classes_compared": 5000, "resolve_results_compared": 500,
-              "resolve_nonascii_names_compared": 200,
+              "resolve_nonascii_names_compared": 200, "kept_chunks_reread": 2000, "rebound_handler_bytes_compared": 4000,
               "reach:txtorcon.socks:_SocksMachine._parse_request_reply": 15000,
               "reach:txtorcon.socks:_SocksMachine._relay_data": 800,
               "reach:txtorcon.socks:_SocksMachine._make_connection": 500,
@@ -85,7 +86,8 @@ FLOORS = {
     "thorough": {"evaluations": 140000, "chunks_judged": 450000, "outcomes_compared": 350000,
                  "app_bytes_compared": 600000, "app_writes_compared": 150000, "disconnects_injected": 50000,
                  "contract_evaluations": 400000, "error_classes_compared": 150000, "resolve_results_compared": 8000,
-                 "resolve_nonascii_names_compared": 1300,
+                 "resolve_nonascii_names_compared": 1300, "kept_chunks_reread": 160000,
+                 "rebound_handler_bytes_compared": 200000,
                  "reach:txtorcon.socks:_SocksMachine._parse_request_reply": 230000,
                  "reach:txtorcon.socks:_SocksMachine._relay_data": 20000,
                  "reach:txtorcon.socks:_SocksMachine._make_connection": 11000,
@@ -346,12 +348,27 @@ class Run(object):
         return w
 
 
+APPMODES = ["copy", "keep", "rebind-made", "copy", "keep", "rebind-first", "copy"]
+
+
 class App(Protocol):
-    """recording application protocol: logs what it is given, writes a greeting and an echo"""
+    """recording application protocol: logs what it is given, writes a greeting and an echo.
+
+    case["appmode"]: "copy" copies each chunk at once; "keep" also keeps the very objects it was handed and
+    re-reads them later (as protocols that join their chunks at the end do); "rebind-made" / "rebind-first"
+    re-point the instance's dataReceived at connectionMade / after the first delivery (as Twisted's HTTPChannel
+    and conch do) -- a transport looks dataReceived up on every delivery, so bytes given to the replaced handler
+    have not reached the protocol.
+    """
 
     def __init__(self, case):
         self.case = case
-        self.received = b""
+        self.mode = case.get("appmode", "copy")
+        self.received = b""         # copied at reception, through the handler that is current
+        self.kept = []              # "keep": the objects as handed over
+        self.stale = b""            # bytes that arrived at a handler the protocol had already replaced
+        self.types = set()
+        self.rebound = False
         self.made = []
         self.lost = []
         self.writes = []
@@ -362,13 +379,36 @@ class App(Protocol):
         Protocol.makeConnection(self, transport)
 
     def connectionMade(self):
+        if self.mode == "rebind-made":
+            self._rebind()
         if self.case["greet"]:
             self._w(self.case["greet"])
 
-    def dataReceived(self, data):
-        self.received += data
+    def _rebind(self):
+        self.rebound = True
+        self.dataReceived = self._current_handler       # instance attribute shadows the class method
+
+    def _take(self, data):
+        self.types.add(type(data).__name__)
+        self.received += bytes(data)
+        if self.mode == "keep":
+            self.kept.append(data)
         if self.case["echo"]:
-            self._w(b"<" + data + b">")
+            self._w(b"<" + bytes(data) + b">")
+
+    def dataReceived(self, data):
+        if self.rebound:
+            self.stale += bytes(data)
+            return
+        self._take(data)
+        if self.mode == "rebind-first":
+            self._rebind()
+
+    def _current_handler(self, data):
+        self._take(data)
+
+    def reread(self):
+        return b"".join(bytes(c) for c in self.kept)
 
     def _w(self, data):
         self.writes.append(data)
@@ -428,7 +468,7 @@ def build_harness(run):
 
         def create(addr, bport):
             a = App(case)
-            a.case = dict(case, greet=b"", echo=False)      # no transport at machine level
+            a.case = dict(case, greet=b"", echo=False)      # no transport at machine level: nothing to write to
             run.builds.append((run.cur_end, run.cur_chunk, a, None))
             return a
         kw = {}
@@ -575,7 +615,7 @@ class Judge(object):
         if run.builds and exp["kind"] == "connect":
             app = run.builds[0][2]
             want = self.tail[self.reply_len:td]
-            if not want.startswith(app.received):
+            if not want.startswith(app.received) and not app.stale:
                 self.V("app-bytes-corrupt", {"got": app.received[:80], "want": want[:80]}, self.coalesced())
 
     def step(self, td, chunk_no):
@@ -614,9 +654,21 @@ class Judge(object):
         at_end, at_chunk, app, pre = run.builds[0]
         want = self.tail[self.reply_len:td]
         rec.count("app_bytes_compared", len(want))
-        if app.received != want and want.startswith(app.received):
+        if app.received != want and want.startswith(app.received) and not app.stale:
             self.V("app-bytes-withheld", {"got": app.received[:80], "want": want[:80], "after_chunk": chunk_no,
                                           "withheld": len(want) - len(app.received)}, self.coalesced())
+        if app.stale:
+            self.V("app-bytes-to-replaced-handler", {"stale_handler_got": app.stale[:80], "current_handler_got": app.received[:80],
+                                                     "appmode": app.mode}, self.coalesced())
+        if app.rebound:
+            rec.count("rebound_handler_bytes_compared", len(want))
+        if app.mode == "keep":
+            rec.count("kept_chunks_reread", len(app.kept))
+            if app.reread() != app.received:
+                self.V("app-chunk-mutated-after-delivery", {"at_delivery": app.received[:80], "reread_later": app.reread()[:80],
+                                                            "types_handed": sorted(app.types)}, self.coalesced())
+        if app.types - {"bytes"}:
+            rec.count("app_data_non_bytes_type_seen")
         if run.transport is not None:
             rec.count("app_writes_compared", len(app.writes))
             if app.made != [run.transport]:
@@ -1040,6 +1092,7 @@ def run_shard(spec, rec):
     install_contract()
     cases = WORKLOADS[spec["mode"]](spec)
     for i, case in enumerate(cases):
+        case.setdefault("appmode", APPMODES[i % len(APPMODES)])
         run_case(case, rec)
         if i % 1499 == 7:
             rec.sample(case)
